@@ -1,15 +1,15 @@
 CONSTANTS
-  N = 1
-  Upgs = {9, 10, 11, 12}
-  Gods = {"V", "U"}
+  N = 2
+  Upgs = {9, 12}
+  Gods = {"V"}
   Pools = {0}
-  PrevSet = {2, 3, 4, 6, 7, 8}
+  PrevSet = {2, 3, 7}
   OutSet = {3, 4, 5, 6, 7, 8}
-  GoodSet = {0, 1, 3, 4}
+  GoodSet = {0}
   RepSet = {0, 1}
-  NqSet = {0, 1}
-  StakeSet = {0, 1, 2}
-  DelegSet = {FALSE, TRUE}
+  NqSet = {0}
+  StakeSet = {2}
+  DelegSet = {FALSE}
   RelOn = TRUE
   PerPat = 0
   SampleMod = 1
